@@ -22,7 +22,8 @@ Context(st0, ms) ==
          \cup (IF Malformed(ms[k].a) THEN {"malformed-pattern"} ELSE {})
          \cup (IF \E i \in 1..Len(st0.rs) : st0.rs[i].en /\ st0.rs[i].kind = "matching" THEN {"matching-responder-enabled"} ELSE {})
          : k \in 1..Len(ms)}
-Outcome(out) == IF out = "hang" THEN "Hang" ELSE IF out = "stuck" THEN "Stuck" ELSE IF out # "ok" THEN "Raised" ELSE "ok"
+Outcome(out) == IF out = "hang" THEN "Hang" ELSE IF out = "stuck" THEN "Stuck" ELSE IF out = "flood" THEN "Flood"
+                ELSE IF out # "ok" THEN "Raised" ELSE "ok"
 \* did a callback that ran in this datagram raise (per its script)?  -> part of the diagnosis
 RECURSIVE AnyRaised(_, _, _)
 AnyRaised(s, log, k) == IF k > Len(log) THEN FALSE
